@@ -28,9 +28,12 @@ fn counts_dense<A: Abc>(c: &[Vec<u32>]) -> DenseMatrix<u32, A::K> {
 }
 
 fn gen_counts<A: Abc>(rng: &mut impl Rng, m: usize) -> Vec<Vec<u32>> {
-    let n: u32 = rng.gen_range(1..=24);
+    let n0: u32 = rng.gen_range(1..=24);
+    // "any count data": one matrix in four has rows with different totals (CountMatrix::new accepts them)
+    let unequal = rng.gen_bool(0.25);
     (0..m)
         .map(|_| {
+            let n = if unequal { rng.gen_range(1..=n0 + 3) } else { n0 };
             // distribute n sequences over the symbols (sparse rows are common in real motifs)
             let mut row = vec![0u32; A::KK];
             for _ in 0..n {
@@ -69,7 +72,7 @@ fn gen_bg<A: Abc>(rng: &mut impl Rng) -> (Vec<i64>, i64) {
     let k = A::KK - 1;
     match rng.gen_range(0..4) {
         0 => { let mut v = vec![1i64; k]; v.push(0); (v, k as i64) }                       // uniform
-        1 if k == 4 => (vec![4, 1, 1, 2, 0], 8),                                           // dyadic
+        1 if k == 4 => if rng.gen_bool(0.3) { (vec![2, 0, 1, 1, 0], 4) } else { (vec![4, 1, 1, 2, 0], 8) }, // zero for a real symbol / dyadic
         2 if k == 4 => (vec![3, 2, 2, 3, 0], 10),                                          // decimal, strand-symmetric
         3 if k == 4 => (vec![1, 4, 2, 1, 0], 8),
         _ => {
@@ -155,6 +158,53 @@ fn conversions<A: Abc>(rec: &mut Recorder, rng: &mut impl Rng, n: usize) {
             Err(msg) => { let mut e = base.clone(); e["ev"] = json!("to_freq"); e["ret"] = json!("panic"); e["msg"] = json!(msg); e["q"] = json!([]); rec.reset(); rec.class("panic"); rec.emit(e); }
         }
         rec.nontrivial(&(A::NAME, counts.clone(), pn.clone(), pd, bn.clone(), bd));
+    }
+}
+
+/// A valid background with one very small (but non-zero) frequency: counts (1, 2^23-1, 2^22, 2^22, 0) -> first frequency
+/// 2^-24.  Logged as bn/bd = (1,2,1,1,0)/4 with a per-symbol binary shift (22,0,0,0,0): background = bn / (bd * 2^shift).
+fn tiny_background(rec: &mut Recorder, rng: &mut impl Rng, n: usize) {
+    type A = Dna;
+    for it in 0..n {
+        let m = rng.gen_range(1..=8);
+        let counts = gen_counts::<A>(rng, m);
+        let (pn, pd, scalar) = gen_pseudo::<A>(rng);
+        let rot = it % 4;
+        let mut cnt = [0usize; 5];
+        let mut bn = vec![0i64; 5];
+        let mut bsh = vec![0i64; 5];
+        for (j, (&c, &b)) in [1usize, (1 << 23) - 1, 1 << 22, 1 << 22].iter().zip([1i64, 2, 1, 1].iter()).enumerate() {
+            cnt[(j + rot) % 4] = c; bn[(j + rot) % 4] = b;
+        }
+        bsh[rot] = 22;
+        let base = json!({"abc":A::NAME,"K":A::KK,"m":counts,"pn":pn,"pd":pd,"bn":bn,"bd":4,"bsh":bsh});
+        let r = guarded(|| -> Vec<Value> {
+            let mut out = Vec::new();
+            let cm = CountMatrix::<A>::new(counts_dense::<A>(&counts)).unwrap();
+            let fm = cm.to_freq(pseudo_of::<A>(&pn, pd, scalar));
+            let ga: GenericArray<usize, <A as lightmotif::abc::Alphabet>::K> = cnt.iter().cloned().collect();
+            let bg = Background::<A>::from_counts(&ga).unwrap();
+            let wm = fm.to_weight(bg.clone());
+            let mut e = base.clone(); e["ev"] = json!("to_weight"); e["q"] = json!(qmat::<A>(wm.matrix(), Q12)); out.push(e);
+            let routes: Vec<(&str, ScoringMatrix<A>)> = vec![
+                ("freq.to_scoring", fm.to_scoring(bg.clone())),
+                ("freq.into_scoring", fm.clone().into_scoring(bg.clone())),
+                ("weight.to_scoring", wm.to_scoring()),
+            ];
+            for (name, sm) in routes {
+                let mut e = base.clone();
+                e["ev"] = json!("to_scoring"); e["route"] = json!(name); e["basen"] = json!(2); e["based"] = json!(1);
+                e["q"] = json!(qmat::<A>(sm.matrix(), Q10));
+                e["min"] = json!(quant(sm.min_score() as f64, Q10)); e["max"] = json!(quant(sm.max_score() as f64, Q10));
+                out.push(e);
+            }
+            out
+        });
+        match r {
+            Ok(evs) => for mut e in evs { e["ret"] = json!("ok"); rec.reset(); rec.class("tiny_nonzero_background"); rec.emit(e); },
+            Err(msg) => { let mut e = base.clone(); e["ev"] = json!("to_weight"); e["ret"] = json!("panic"); e["msg"] = json!(msg); e["q"] = json!([]); rec.reset(); rec.class("panic"); rec.emit(e); }
+        }
+        rec.nontrivial(&("tiny", counts.clone(), pn.clone(), pd, rot));
     }
 }
 
@@ -262,6 +312,7 @@ pub fn record_c09(rec: &mut Recorder, seed: u64, thorough: bool) {
     counting::<Dna>(rec, &mut r, n);
     counting::<Protein>(rec, &mut r, n / 3);
     validity(rec, &mut r, n);
+    tiny_background(rec, &mut r, n / 4);
 }
 
 // ------------------------------------------------------------------------------------------ C10
@@ -350,15 +401,25 @@ pub fn record_c10(rec: &mut Recorder, seed: u64, thorough: bool) {
                 let b_w = cm.reverse_complement().to_freq(p).to_weight(bg.clone());
                 let a_s = cm.to_freq(p).to_scoring(bg.clone()).reverse_complement();
                 let b_s = cm.reverse_complement().to_freq(p).to_scoring(bg.clone());
+                // the whole object, not only its cells: background carried by the weight / scoring matrices, and the
+                // original back after two reverse complements
+                let w0 = cm.to_freq(p).to_weight(bg.clone());
+                let s0 = cm.to_freq(p).to_scoring(bg.clone());
+                let w2 = a_w.reverse_complement();
+                let s2 = a_s.reverse_complement();
+                let bq = |b: &Background<A>| b.frequencies().iter().map(|&x| quant(x as f64, Q12)).collect::<Vec<_>>();
                 json!({"af": qmat::<A>(a_f.matrix(), Q12), "bf": qmat::<A>(b_f.matrix(), Q12),
                        "aw": qmat::<A>(a_w.matrix(), Q12), "bw": qmat::<A>(b_w.matrix(), Q12),
-                       "as": qmat::<A>(a_s.matrix(), Q10), "bs": qmat::<A>(b_s.matrix(), Q10)})
+                       "as": qmat::<A>(a_s.matrix(), Q10), "bs": qmat::<A>(b_s.matrix(), Q10),
+                       "w0": qmat::<A>(w0.matrix(), Q12), "w2": qmat::<A>(w2.matrix(), Q12), "w2eq": w2 == w0,
+                       "s0": qmat::<A>(s0.matrix(), Q10), "s2": qmat::<A>(s2.matrix(), Q10), "s2eq": s2 == s0,
+                       "bgs": [bq(a_w.background()), bq(w2.background()), bq(a_s.background()), bq(s2.background())]})
             });
             rec.reset(); rec.class("rc_commute");
             let mut pnv = vec![pn; 5]; pnv[4] = 0;
             let mut e = json!({"ev":"rc_commute","m":counts,"pn":pnv,"pd":pd,"bn":bn,"bd":bd,"K":5});
             match r { Ok(v) => { e["ret"] = json!("ok"); for (k, x) in v.as_object().unwrap() { e[k] = x.clone(); } }
-                      Err(msg) => { e["ret"] = json!("panic"); e["msg"] = json!(msg); for k in ["af","bf","aw","bw","as","bs"] { e[k] = json!([]); } } }
+                      Err(msg) => { e["ret"] = json!("panic"); e["msg"] = json!(msg); for k in ["af","bf","aw","bw","as","bs","w0","w2","s0","s2","bgs"] { e[k] = json!([]); } e["w2eq"] = json!(false); e["s2eq"] = json!(false); } }
             rec.emit(e);
         }
         // ---- mirrored scoring on the opposite strand (grid matrix => exact)
